@@ -20,6 +20,35 @@ def check_g1(pid, tier):
         obs.extend(r["obligations"])
         trusted.update(r.get("trusted", ()))
     fns = []
+    if pid in ("C07", "C09", "C05"):
+        try:
+            from . import s10fields
+
+            o10, c10_ = s10fields.obligations(pid, tier)
+            obs += o10
+            crashes += c10_
+            fns.append("builder.py:CodeBuilder.dataclass_fields / get_field_default / metadatas (S10: the builder's view of the fields = dataclasses' own, over a lattice of 3-level and diamond hierarchies x declaration forms)")
+        except Exception as e:  # noqa
+            import traceback
+
+            crashes.append(f"S10: {type(e).__name__}: {e}\n" + traceback.format_exc()[-500:])
+    if pid == "C05":
+        # error paths must be executable: a NameError raised while building MissingField / InvalidFieldValue escapes
+        # from_dict as an undocumented exception - closedness of every generated function of the override families
+        try:
+            from . import c17
+
+            names = [n for n in c17.CUSTOM if n.split("/")[0] in ("list", "dict", "blist", "bdict", "btuple", "plain", "optional")]
+            for r in runner.run_pool(c17.custom_task, [(pid, n) for n in names], chunks=4):
+                if "crash" in r:
+                    crashes.append(r["crash"] + " @ " + r["payload"] + "\n" + r["trace"][-500:])
+                else:
+                    obs.extend(r["obligations"])
+            fns.append("<generated> error paths of from_dict under whole-field overrides (closedness: every name in MissingField/InvalidFieldValue arguments resolves)")
+        except Exception as e:  # noqa
+            import traceback
+
+            crashes.append(f"closedness: {type(e).__name__}: {e}\n" + traceback.format_exc()[-500:])
     if pid == "C09":
         try:
             from . import s3resolve
@@ -45,11 +74,13 @@ def check_g1(pid, tier):
 
 
 def check_g2(pid, tier):
-    from . import g2
+    from . import g2, s10fields
 
     t0 = time.time()
     pts = g2.lattice(tier)
     results = runner.run_pool(g2.g2_task, [(pid, p) for p in pts], chunks=2)
+    o10, c10_ = s10fields.obligations(pid, tier)
+    results = list(results) + [{"obligations": o10}] + [{"crash": c, "payload": "S10", "trace": ""} for c in c10_]
     obs, crashes, trusted = [], [], set()
     for r in results:
         if "crash" in r:
@@ -91,6 +122,26 @@ def check_g4(pid, tier):
         results += runner.run_pool(g7.g7_task, [(pid, p) for p in fpts], chunks=1)
     obs, crashes, trusted = _collect(results)
     if pid == "C03":
+        # "the very class named in the annotation, never a look-alike": identity obligations on same-named classes
+        # of different modules and on a generic dataclass specialised with a local class
+        try:
+            from . import c17
+
+            pl = []
+            for fam in ("same_name_other_modules", "generic_with_local_arg"):
+                _, tys, two = c17.AWKWARD[fam]
+                pl += [(pid, fam, t, "one") for t in tys]
+                if two:
+                    pl.append((pid, fam, "+".join(two), "two"))
+            for r in runner.run_pool(c17.awkward_task, pl, chunks=1):
+                if "crash" in r:
+                    crashes.append(r["crash"] + " @ " + r["payload"] + "\n" + r["trace"][-500:])
+                else:
+                    obs.extend(r["obligations"])
+        except Exception as e:  # noqa
+            import traceback
+
+            crashes.append(f"identity families: {type(e).__name__}: {e}\n{traceback.format_exc()[-600:]}")
         try:
             from . import s6key
 
